@@ -121,7 +121,13 @@ private:
       ++iterations;
       for (unsigned i = 0, e = order.size(); i < e; ++i) {
         auto const &n = order[i];
-        auto out = (i == 0 ? m_analysis.entry() : killgen_domain_t::bottom());
+        // The initial value belongs to the exit block, which is not
+        // necessarily the first node of the order if the cfg has other
+        // blocks without successors (e.g., ending with unreachable).
+        const bool is_initial_node =
+            (m_cfg.has_exit() ? (n == m_cfg.exit()) : (i == 0));
+        auto out = (is_initial_node ? m_analysis.entry()
+                                    : killgen_domain_t::bottom());
         for (auto const &p : m_cfg.next_nodes(n))
           out = m_analysis.merge(out, m_in_map[p]);
         auto old_in = m_in_map[n];
